@@ -8,7 +8,7 @@
    the fields that are set; [effective] is conf.Paths[name]. [patch_val f p] is the value the request gives to field f
    (None = field absent from the request = nil pointer in the optional struct). *)
 From Coq Require Import List ZArith Bool.
-Require Import MTX.Model.C12_ApiEdit MTX.Proofs.C12_ApiEdit.
+Require Import MTX.Model.C12_ApiEdit MTX.Proofs.C12_ApiEdit MTX.Model.C12_FileReload MTX.Proofs.C12_FileReload.
 Import ListNotations.
 Local Open Scope Z_scope.
 
@@ -157,3 +157,78 @@ Example C12_example_reads :
   = Some (s, [ERead v0; EReply OOk; ERead {| vg := []; vd := []; vp := [(7, [(1, 2)])] |};
               ERead {| vg := []; vd := []; vp := [(7, [(1, 2)])] |}]).
 Proof. eexists. vm_compute. reflexivity. Qed.
+
+(* ==== reloads of the configuration file interleaved with API edits (Model/C12_FileReload.v) =========================
+   Core.run: on the watcher's signal  conf.Load(file) ; reloadConf(newConf)  (which stores newConf in p.conf and
+   p.apiConf); an API edit starts from p.conf.Load().Clone() and is never written to the file.  [HFile (FLoaded v
+   started)]: conf.Load gave the configuration v, createResources succeeded or not; [HFile FBroken]: conf.Load failed;
+   [HApi o started]: an API edit.  State None = Core.run has left its loop (the server shuts down). ==== *)
+
+(* after a successful file reload the live configuration is the file's *)
+Theorem C12_file_reload_replaces : forall valid w v, wf w ->
+  exists w', hstep valid (Some w) (HFile (FLoaded v true)) = (Some w', HReloaded) /\ abs w' = v /\ wf w'.
+Proof. exact file_reload_replaces. Qed.
+Print Assumptions C12_file_reload_replaces.
+
+(* ... WHATEVER came before it (API edits accepted or rejected, other reloads): the file wins entirely, API edits are
+   not persisted; the only other possibility is that the server had already terminated *)
+Theorem C12_file_wins : forall valid hops w st' outs v, wf w ->
+  hrun valid (Some w) (hops ++ [HFile (FLoaded v true)]) = (st', outs) ->
+  match st' with
+  | Some w' => abs w' = v /\ wf w' /\ exists outs0, outs = outs0 ++ [HReloaded]
+  | None => exists outs0, outs = outs0 ++ [HDead]
+  end.
+Proof. exact file_wins. Qed.
+Print Assumptions C12_file_wins.
+
+(* [file reload ; API edit]: the edit is applied to the file's configuration *)
+Theorem C12_edit_after_file : forall valid w v o st' out, wf w ->
+  hrun valid (Some w) [HFile (FLoaded v true); HApi o true] = (st', [HReloaded; HAnswer out]) ->
+  exists w', st' = Some w' /\ (abs w', out) = spec_step valid v o.
+Proof. exact edit_after_file. Qed.
+Print Assumptions C12_edit_after_file.
+
+(* OBSERVATION (what the code does; the property's statement is about API edits and does not say what must happen):
+   a configuration file that does not load makes Core.run log the error and LEAVE ITS LOOP: the server shuts down,
+   nothing is served afterwards. The running configuration is not "left unchanged": it is gone. *)
+Theorem C12_failed_file_reload : forall valid st hops,
+  hrun valid st (HFile FBroken :: hops) =
+  (None, (match st with Some _ => HExit | None => HDead end) :: map (fun _ => HDead) hops).
+Proof. exact failed_file_reload. Qed.
+Print Assumptions C12_failed_file_reload.
+
+(* OBSERVATION: so does an API edit that Validate ACCEPTS (the request is answered OK) when the resources of the new
+   configuration cannot be created (reloadConf fails: Core.run logs and leaves its loop) *)
+Theorem C12_accepted_edit_failed_start : forall valid w o w', edit valid Deep w o = (w', OOk) ->
+  hstep valid (Some w) (HApi o false) = (None, HAnswer OOk).
+Proof. exact failed_start. Qed.
+Print Assumptions C12_accepted_edit_failed_start.
+
+(* HISTORY FORM with file reloads: for every sequence of API edits and file reloads (loadable or not, resources
+   created or not) the readable configuration, whether the server is still running, and every answer are those of the
+   specification in which the configuration is a plain value that a file reload REPLACES *)
+Theorem C12_refines_files : forall valid hops st st' outs, wf_opt st -> hrun valid st hops = (st', outs) ->
+  wf_opt st' /\ (abs_opt st', outs) = hspec_run valid (abs_opt st) hops.
+Proof. exact hrun_refines. Qed.
+Print Assumptions C12_refines_files.
+
+(* READ YOUR WRITE with file reloads: in the request loop (answer before reload, reads at any moment) a file reload is
+   taken only when no reload is outstanding; every read returns the result of all edits answered and all file
+   reloads handled before it *)
+Theorem C12_read_your_write_files : forall valid v ls s' evs,
+  fcrun valid (core_init (load v)) ls = Some (s', evs) -> evs = fspec_events valid v ls.
+Proof. exact freads_from_load. Qed.
+Print Assumptions C12_read_your_write_files.
+
+(* non-vacuity: [API edit ; file reload] and [file reload ; API edit]; then a broken file *)
+Example C12_example_files :
+  let v0 := {| vg := [(1, 10)]; vd := [(2, 20)]; vp := [(100, [(2, 21)])] |} in
+  let fv := {| vg := [(1, 12)]; vd := [(2, 20)]; vp := [(200, [])] |} in
+  let '(st, outs) := hrun ex_valid (Some (load v0))
+      [HApi (Add 101 [(2, 22)]) true; HFile (FLoaded fv true); HApi (Patch 101 [(2, 23)]) true;
+       HApi (Patch 200 [(2, 23)]) true; HFile FBroken; HApi (Add 5 []) true] in
+  outs = [HAnswer OOk; HReloaded; HAnswer ONotFound; HAnswer OOk; HExit; HDead] /\ st = None /\
+  let '(st2, _) := hrun ex_valid (Some (load v0))
+      [HApi (Add 101 [(2, 22)]) true; HFile (FLoaded fv true); HApi (Patch 200 [(2, 23)]) true] in
+  abs_opt st2 = Some {| vg := [(1, 12)]; vd := [(2, 20)]; vp := [(200, [(2, 23)])] |}.
+Proof. vm_compute. repeat split. Qed.
